@@ -451,6 +451,19 @@ def E2(ctx):
             ctx.ok("E2", bk + ":inherit", "new branch: preemptions = prev.preemptions() or 0", [site_str(prog, bk, ws[0]["bb"])])
         else:
             ctx.bad("E2", bk, "a new schedule branch must inherit the preemption count of the previous one", bfn.loc(), detail="inherit")
+        # the new branch continues the running thread iff its active thread equals the thread the *previous branch ran*
+        binst = prog.ident(bk)
+        nes = [(b, t) for (b, t, c) in prog.sites(binst) if callee_path(t).endswith("PartialEq::ne")]
+        cont_ok = False
+        for (b, t) in nes:
+            a1 = strip(arg_expr(bfn.body, t, 1))
+            if a1[0] == "call" and a1[1] == SCH + "::active_thread_index":
+                cont_ok = True
+        if cont_ok:
+            ctx.ok("E2", bk + ":continuation", "initial_active is kept iff it equals prev.active_thread_index()", [bfn.loc()])
+        else:
+            ctx.bad("E2", bk, "whether a new branch continues the running thread must be decided against the thread the previous branch "
+                    "actually ran (prev.active_thread_index()); otherwise a switch right after a preemption is not counted", bfn.loc(), detail="continuation")
         # initial_active cleared when the previous branch ran another thread
         iw = field_writes(prog, bk, SCH, "initial_active")
         if iw:
